@@ -1,0 +1,27 @@
+//go:build verif
+
+package hub
+
+// Verification harness only (build tag verif): observations used by the schedule-level check of
+// the hub (harness property C08S).  The schedule points themselves are the verifPoint calls in
+// hub.go (subscribe, processBlock) and subscription.go (run); see also forkable/verif_hooks_sched.go.
+
+// VerifLen returns how many items are queued in the subscription's channel.
+func (s *Subscription) VerifLen() int { return len(s.blocks) }
+
+// VerifSubscriberList returns a copy of the hub's subscriber list, in order.
+func (h *ForkableHub) VerifSubscriberList() []*Subscription {
+	h.subscribersLock.Lock()
+	defer h.subscribersLock.Unlock()
+	return append([]*Subscription(nil), h.subscribers...)
+}
+
+// VerifSubscribersLockFree reports whether subscribersLock is free at this instant (TryLock and,
+// when it succeeded, Unlock).
+func (h *ForkableHub) VerifSubscribersLockFree() bool {
+	if h.subscribersLock.TryLock() {
+		h.subscribersLock.Unlock()
+		return true
+	}
+	return false
+}
